@@ -14,7 +14,7 @@ CHECKS = {
             'clients/introducer/persister/merger for small histories; then every recorded execution of the real writer (random batch histories x '
             'fs/in-memory x ice v1/v2 x safe/unsafe, seeded gate schedules) is replayed by TLC through BlugeTrace, which evaluates root = Abs(applied) '
             'after every root replacement and compares every Reader observation made through the public API (count, match-all + stored fields, '
-            'per-id term lookup, sorted doc values, dictionary scan) with Abs; callers re-use Batch objects (Reset) in part of the scenarios; after Close every directory is reopened for real and observed again.', '6 C01'),
+            'per-id term lookup, sorted doc values, dictionary scan) with Abs; callers re-use Batch objects (Reset) in part of the scenarios; after Close every directory is reopened for real and observed again; sub-check: the same abstract index with 6000+ documents per segment (BigIndexTrace.tla).', '6 C01'),
     'C02': ('TLC: C02_AckedDurable with Crash enabled in every state (the invariant is the quantifier over crash instants). Code: every '
             'execution records directory operations and acknowledgements in one order; BlugeTrace keeps the file model (in-flight item = torn) and '
             'evaluates acked => durable after every event; independently, crash images at every operation boundary plus all torn variants of the '
@@ -23,7 +23,7 @@ CHECKS = {
             'state space: this is how defect D2 was found). Code: crash images (boundaries, every prefix length of snapshot files, sampled prefixes of '
             'segment files, zero-filled) are reopened for real; TLC decides for each result: no process death, success whenever a snapshot had been '
             'completed, content = Abs(some prefix), further batches accepted; crash-recover-continue-crash (depth 2) runs validate the second '
-            'incarnation against the ghost history cut to the recovered prefix; family mergeimg images persisted roots whose segments are not in id order (merges overlapped by batches).', '6 C03'),
+            'incarnation against the ghost history cut to the recovered prefix; family mergeimg images persisted roots whose segments are not in id order (merges overlapped by batches); sub-check: large indexes (thousands of pending deletions) closed and reopened (BigIndexTrace.tla).', '6 C03'),
     'C04': ('TLC: reference-count model of snapshots and loaded file segments (C04_NoUseAfterClose, C04_ReaderFrozen). Code: several readers of '
             'different ages are held open while batches, merges, persists, removals and Close run; after EVERY released gate each held reader is '
             're-observed through the public API and TLC requires the observation to be identical to the one at acquisition; handle closes are events '
